@@ -149,6 +149,19 @@ def run(ctx):  # noqa: C901, PLR0912, PLR0915
                f'message is rejected' if ok else
                f'{fi.name}: decompress_payload({et}) - membership guard={bool(member)}, unsupported coding rejected='
                f'{raises}', fi=fi, node=c, witness={'facts': facts})
+    # a truncated / corrupt stream must be rejected: one-shot zlib.decompress raises on an incomplete stream; a
+    # streaming decompressobj does not - then .eof has to be checked
+    for q in ('sdc11073.httpserver.compression.GzipCompressionHandler.decompress_payload',):
+        fi = repo.func(q)
+        src = unparse(fi.node)
+        one_shot = any(unparse(c.func) == 'zlib.decompress' for c in calls_in(fi.node))
+        streaming = 'decompressobj' in src
+        eof_checked = '.eof' in src and any(isinstance(n, ast.Raise) for n in walk_no_nested(fi.node))
+        ok = (one_shot and not streaming) or (streaming and eof_checked)
+        ctx.ob('C17.R3', 'gzip: incomplete stream rejected', ok,
+               'the gzip decoder rejects an incomplete stream (one-shot zlib.decompress, or a checked end-of-stream flag)'
+               if ok else 'the gzip decoder uses a streaming decompressobj without checking .eof: a truncated body is '
+                          'accepted and a prefix of the real message is returned', fi=fi)
     gh = repo.func(f'{CH}.get_handler')
     ctx.ob('C17.R3', 'unknown coding raises', any(isinstance(n, ast.Raise) for n in walk_no_nested(gh.node)),
            'CompressionHandler.get_handler raises for an unregistered coding', fi=gh)
@@ -266,6 +279,8 @@ SEEDS = [
           "            http_body = CompressionHandler.decompress_payload(actual_enc, http_body)")),
     seed('unsupported response coding passed through', 'C17.R3',
          (_R, "            else:\n                raise DecompressError(f'content-encoding \"{actual_enc}\" is not supported')\n        return http_body", "        return http_body")),
+    seed('gzip decoded with an unchecked streaming object', 'C17.R3',
+         (_C, "        return zlib.decompress(payload, 16 + zlib.MAX_WBITS)", "        dec = zlib.decompressobj(16 + zlib.MAX_WBITS)\n        return dec.decompress(payload) + dec.flush()")),
     seed('chunk sizes written in decimal', 'C17.R4', (_R, "{len(head):x}", "{len(head):d}")),
     seed('terminator test inverted', 'C17.R4', (_R, "        if not head:\n            return data.getvalue()", "        if not tail:\n            return data.getvalue()")),
     seed('client chunks whenever a size is configured', 'C17.R4',
